@@ -1138,6 +1138,35 @@ func pubKeys(ps []*Pub) string {
 func (r *run) checkReceiver(m *Model) {
 	byKey := map[string][]*Pub{}
 	var keys []string
+	// a QoS 2 PUBLISH with the retain flag is handed on - to existing
+	// subscriptions and, as a retained message, to later ones - at its PUBREL
+	// and never before (how many copies, and which retained value a new
+	// subscription gets, is C08's business)
+	retLo := map[string]int64{}
+	var retKeys []string
+	for _, p := range m.Pubs {
+		if p.Retain && !p.Will && p.QoS == 2 {
+			lo, seen := retLo[p.Key]
+			if !seen {
+				retKeys = append(retKeys, p.Key)
+				lo = -1
+			}
+			if !p.Never && (lo < 0 || p.Lo < lo) {
+				lo = p.Lo
+			}
+			retLo[p.Key] = lo
+		}
+	}
+	sort.Strings(retKeys)
+	for _, key := range retKeys {
+		lo := retLo[key]
+		for _, d := range m.Deliv {
+			if d.Key == key && (lo < 0 || d.Stamp < lo) {
+				r.viol("C02", "not-before-pubrel", "C02/handed-on-before-release/retained", "%s received application message %s (retain flag %v) at stamp %d, but the QoS 2 PUBLISH with the retain flag that carried it had not been released by a PUBREL by then (earliest release at stamp %d, -1 = never)", subscriberName(d.C, d.CB), key, d.Retain, d.Stamp, lo)
+				break
+			}
+		}
+	}
 	for _, p := range m.Pubs {
 		if p.Retain && !p.Will {
 			continue
